@@ -141,8 +141,11 @@ func (w *world) mkItem(d M) interface{} {
 	case "str":
 		x = itemStr(d, "s")
 	case "rune":
-		r, _ := utf8.DecodeRuneInString(opStr(d, "s"))
+		r, _ := utf8.DecodeRuneInString(opStr(d, "s")) // (a rune item is text, never a byte string)
 		x = r
+		if bytesMode {
+			d["s"] = latin1(string(r)) // the text the cell shows, in the byte-string transport of this mode
+		}
 	case "nil":
 		x = nil
 	case "obj":
@@ -191,7 +194,12 @@ func linesWidths(s string) []interface{} {
 	ls := splitLines(s)
 	out := make([]interface{}, 0, len(ls))
 	for _, l := range ls {
-		out = append(out, []interface{}{l, length.StringCells(l)})
+		// third element: is the library's measure additive for this line between spaces?  (Some runes --
+		// combining marks with a width of their own, emoji modifiers, prepended format characters -- attach
+		// to a neighbouring space, so that the measure of a whole output line is not the sum of its slots.)
+		w := length.StringCells(l)
+		safe := b2i(length.StringCells(" "+l+" ") == w+2)
+		out = append(out, []interface{}{l, w, safe})
 	}
 	return out
 }
@@ -258,6 +266,9 @@ func augmentItem(d M, x interface{}) {
 	}
 	if d["k"] == "obj" || d["k"] == "other" {
 		f := fmt.Sprintf("%v", x)
+		if bytesMode {
+			f = latin1(f) // byte-string transport
+		}
 		d["fmtv"] = f
 		tx["fmtv"] = linesWidths(f)
 	}
